@@ -2134,6 +2134,8 @@ func (p *parser) selectObject(child Node) (Node, error) {
 			}
 		case lexer.UnquotedIdentifierToken:
 			key = p.curr.Value
+		default:
+			return nil, &unexpectedTokenError{p.curr.Value}
 		}
 
 		if p.next.Type != lexer.ColonToken {
@@ -2188,6 +2190,8 @@ func (p *parser) selectObject(child Node) (Node, error) {
 				Child:  child,
 				Fields: fields,
 			}, nil
+		default:
+			return nil, &unexpectedTokenError{p.curr.Value}
 		}
 	}
 }
